@@ -211,6 +211,34 @@ def run(cx):
     # ---------------------------------------------------------------- B1 the type bit map decoder
     C09.type_bitmap(cx, 'C08.B1')
 
+    # ---------------------------------------------------------------- S2 the proof the server selects (converse clause)
+    # "for every signed zone and every query, the proof the authoritative server attaches is accepted by the validator": for a name
+    # error the in-memory store attaches (1) the NSEC that matches or covers the query name and (2) the NSEC that matches or covers
+    # the CLOSEST ENCLOSER - the nearest ancestor that exists, found by walking up while the ancestor is inside the zone, is not the
+    # apex and does not exist (F38: it used to be the parent; C08e: a direct map lookup of that name misses empty non-terminals).
+    # Both come from closest_nsec (the chain walk), never from a direct lookup.
+    nr = cx.fn('C08.S2', r'<hickory_server::store::in_memory::InMemoryZoneHandler<P> as hickory_server::zone_handler::ZoneHandler>::nsec_records::{closure@pin#0}')
+    if nr:
+        INNER = r'await\(RwLock::read\(\^arg1\.inner\)\)@Ready\.0'
+        ANCS = r'phi\(LowerName::base_name\(\^arg2\)\|LowerName::base_name\(rec\(_\d+\)\)\)'
+        ORIGIN = r'<InMemoryZoneHandler<P> as ZoneHandler>::origin\(\^arg1\)'
+        cn = cx.calls(nr, r'InnerInMemory::closest_nsec$')
+        cx.check('C08.S2', len(cn) == 2, nr.path, 'calls', 'two-chain-walks(query name, closest encloser)', str(len(cn)))
+        q = [s_ for s_ in cn if re.fullmatch(rf'InnerInMemory::closest_nsec\({INNER},\^arg2\)', s_.term)]
+        w = [s_ for s_ in cn if re.fullmatch(rf'InnerInMemory::closest_nsec\({INNER},phi\({ANCS}\|{ORIGIN}\)\)', s_.term)]
+        cx.check('C08.S2', len(q) == 1 and len(w) == 1, nr.path, 'calls', 'proofs=closest_nsec(qname),closest_nsec(walked-up ancestor or apex)', '; '.join(s_.term[-120:] for s_ in cn))
+        # the walk: base_name is taken again only while the ancestor is in the zone, is not the apex and does not exist
+        ex = [s_ for s_ in cx.calls(nr, r'InnerInMemory::name_exists$') if re.fullmatch(rf'InnerInMemory::name_exists\({INNER},{ANCS}\)', s_.term)]
+        cx.guard('C08.S2', ex, {'ancestor-inside-the-zone': rf'^LowerName::zone_of\({ORIGIN},{ANCS}\)$', 'ancestor-is-not-the-apex': rf'^!eq:LowerName\({ORIGIN},{ANCS}\)$'}, expect=1, fn=nr)
+        step = [s_ for s_ in cx.calls(nr, r'LowerName::base_name$') if re.fullmatch(rf'LowerName::base_name\({ANCS}\)', s_.term)]
+        cx.guard('C08.S2', step, {'ancestor-does-not-exist': rf'^!InnerInMemory::name_exists\({INNER},{ANCS}\)$'}, expect=1, fn=nr)
+        if w and ex:
+            stay = [bi for bi in range(len(nr.blocks)) for t_, ps in (nr.edge_props(bi) or {}).items()
+                    if any(re.fullmatch(rf'InnerInMemory::name_exists\({INNER},{ANCS}\)', shorten(p_)) for p_ in ps)]
+            cx.check('C08.S2', len(stay) >= 1, nr.path, 'loop', 'walk-ends-at-the-first-ancestor-that-exists', str(len(stay)))
+        out = cx.calls(nr, r'LookupRecords::many$')
+        cx.check('C08.S2', len(out) == 1, nr.path, 'calls', 'single-proof-set', str(len(out)))
+
     # ---------------------------------------------------------------- H helper semantics the guards above rely on (rules/helpers.py)
     helpers.check(cx, 'C08.H', ['Name::zone_of', 'Name::base_name', 'Name::trim_to', 'Name::is_wildcard', 'RecordTypeSet::contains', 'NSEC::type_set'])
 
